@@ -314,7 +314,7 @@ func TestC03(t *testing.T) {
 		ID:   "C03",
 		Rule: "grammars built directly as lalr.Grammar: 60% mutated seeds of 20 known families (expressions, lists, nullable chains, LALR-not-SLR, LR(1)-not-LALR, dangling else, ambiguous), 40% random (2..6 terminals, 1..6 nonterminals, 0..4 rules each of length 0..4, nonterminals without rules), 1..3 distinct inputs (30% no-eoi), %expect values drawn relative to the true counts. Reference: canonical LR(1) collection merged by LR(0) core. Checked: state graph isomorphism from every entry state, FinalStates, per-state/per-terminal action cells, lr0 (no-lookahead) states, SR/RR counts, error iff counts differ from %expect. The thorough tier also enumerates every grammar with <=3 rules over {a,b,A,B} (rule length <=2), eoi and no-eoi. Non-trivial: a state where merged LR(1) states contributed different lookahead sets (true LALR merge) or at least one conflict cell; distinct by grammar JSON.",
 		Assume: []string{"input nonterminals are pairwise distinct", "no precedence, markers or runtime lookaheads (C04/C08)", "states with an empty core are kept apart per input, and augmented items do not take part in core comparison (matches how Textmapper numbers entry/final states)"},
-		Quick: 100000, Thorough: 1200000,
+		Quick: 100000, Thorough: 6000000,
 		Gen:   c03Gen,
 		Check: c03Check,
 		Pre: func(r *ev.Recorder, run func(c c03Case) *Failure) *Failure {
